@@ -490,3 +490,113 @@ def rule_chain_length_window(ck, repo, R):
                    f'under `{" and ".join(src(t) for t in tests)}`; paths with exactly min_radius / fewer than max_radius atoms are mishandled') if bad else None,
                   file=f.file, line=call.lineno, func=f.qualname, construct=' and '.join(src(t) for t in tests))
     ck.floor(R, 2)
+
+
+def rule_closure_order_consumers(ck, repo, R):
+    """C01/C02: the @/@@ mark of an atom is computed for the neighbour order recorded in `visited`, which lists the ring-closure partners in the order of
+    their closure numbers; the writer then prints the closure digits of that atom. Both must walk the closure list in the SAME order."""
+    ck.rule(R, 'in Smiles._smiles the two consumers of an atom\'s closure list -- the neighbour order handed to the stereo sign (visited[token].extend(..)) and the loop that '
+               'prints the closure digits -- read it in one and the same order: both the list sorted in place by closure number, or both the same sorted(...) view')
+    f = repo.func('chython.algorithms.smiles:Smiles._smiles')
+    sorts = [c for c in ast.walk(f.node) if isinstance(c, ast.Call) and isinstance(c.func, ast.Attribute) and c.func.attr == 'sort' and src(c.func.value) == 'tokens[token]']
+
+    def view(it, line):
+        if src(it) == 'tokens[token]':
+            s_ = [c for c in sorts if c.lineno <= line]
+            if s_:
+                k = next((src(kw.value) for kw in s_[-1].keywords if kw.arg == 'key'), None)
+                return f'in-place sort by {k}'
+            return 'unsorted'
+        if isinstance(it, ast.Call) and src(it.func) == 'sorted' and it.args and src(it.args[0]) == 'tokens[token]':
+            return 'sorted copy by ' + str(next((src(kw.value) for kw in it.keywords if kw.arg == 'key'), None))
+        return None
+    stereo_view = digits_view = None
+    for c in ast.walk(f.node):
+        if isinstance(c, ast.Call) and isinstance(c.func, ast.Attribute) and c.func.attr == 'extend' and src(c.func.value) == 'visited[token]' and c.args \
+                and isinstance(c.args[0], (ast.GeneratorExp, ast.ListComp)):
+            v = view(c.args[0].generators[0].iter, c.lineno)
+            if v is not None:
+                stereo_view = (v, c.lineno)
+        if isinstance(c, ast.For) and any(isinstance(x, ast.Call) and src(x.func) == 'self._format_closure' for x in ast.walk(c)):
+            v = view(c.iter, c.lineno)
+            if v is not None:
+                digits_view = (v, c.lineno)
+    if stereo_view is None or digits_view is None:
+        raise AnalysisError('Smiles._smiles: consumers of the closure list not recognised')
+    ok = stereo_view[0] == digits_view[0] and stereo_view[0] != 'unsorted' and 'casted_cycles' in stereo_view[0]
+    ck.decide(ok, R, 'same-order', (stereo_view[0], digits_view[0]),
+              f'Smiles._smiles: the neighbour order used for the stereo mark reads the closure list as "{stereo_view[0]}" (line {stereo_view[1]}) but the closure digits are printed '
+              f'from "{digits_view[0]}" (line {digits_view[1]}): for an atom with two ring closures the written @/@@ describes another neighbour order than the digits that follow',
+              file=f.file, line=digits_view[1], func=f.qualname)
+
+
+def rule_bare_string_for_reaction(ck, repo, R):
+    """C15/C02: ReactionContainer.__format__ asks every molecule for (bare SMILES, atom order) and appends ONE global CX block; the pair returned under
+    `_return_order` must therefore be the joined token list of a `_smiles()` run of that call -- never str(self) / a cached string that already carries the
+    molecule's own CX block"""
+    ck.rule(R, 'every `return a, b` of Smiles.__format__ returns a = the joined tokens and b = the order produced by one self._smiles(..) call made in that branch '
+               '(provenance through local assignments); a cached / finished string is never returned as the bare string')
+    f = repo.func('chython.algorithms.smiles:Smiles.__format__')
+    rets = [r for r in ast.walk(f.node) if isinstance(r, ast.Return) and isinstance(r.value, ast.Tuple) and len(r.value.elts) == 2]
+    ck.require(len(rets) >= 2, 'Smiles.__format__: pair returns not found')
+    # names bound (directly or through ''.join) to the result of self._smiles(..)
+    fresh = set()
+    for a in sorted((x for x in ast.walk(f.node) if isinstance(x, ast.Assign)), key=lambda x: x.lineno):
+        v = a.value
+        if isinstance(v, ast.Call) and src(v.func) == 'self._smiles':
+            for t in a.targets:
+                fresh |= {x.id for x in ast.walk(t) if isinstance(x, ast.Name)}
+        elif isinstance(v, ast.Call) and src(v.func) == "''.join" and len(v.args) == 1 and isinstance(v.args[0], ast.Name) and v.args[0].id in fresh:
+            fresh |= {t.id for t in a.targets if isinstance(t, ast.Name)}
+
+    def is_fresh(e):
+        if isinstance(e, ast.Name):
+            return e.id in fresh
+        if isinstance(e, ast.Call) and src(e.func) in ("''.join", 'tuple', 'list') and len(e.args) == 1:
+            return is_fresh(e.args[0])
+        return False
+    for r in rets:
+        a, b = r.value.elts
+        ck.decide(is_fresh(a) and is_fresh(b), R, f'return@{src(r.value)[:40]}', None,
+                  f'Smiles.__format__ returns `{src(r.value)}` under _return_order: the string / order do not come from a self._smiles() run of this call (a cached str(self) already '
+                  f'ends with the molecule\'s own CXSMILES block, which the reaction writer then embeds in the middle of the reaction string)',
+                  file=f.file, line=r.lineno, func=f.qualname, construct=src(r.value))
+
+
+def rule_elemental_bracket(ck, repo, R):
+    """C02: an atom of B, C, P, S without hydrogens and without ORDINARY bonds is written in brackets ([C]); "ordinary" is what the reader's hydrogen calculation counts
+    (calc_implicit skips order-8 bonds), i.e. the not_special_connectivity view -- not the raw adjacency"""
+    from .r_query import dnf as _dnf, simplify as _simplify
+    ck.rule(R, 'MoleculeSmiles._format_atom has an arm whose condition is exactly: no implicit hydrogens, element in (B, C, P, S), and no neighbour in '
+               'not_special_connectivity (the same view calc_implicit uses); compared as normalised DNF')
+    f = repo.func('chython.algorithms.smiles:MoleculeSmiles._format_atom')
+    want = _simplify(_dnf(ast.parse('not atom.implicit_hydrogens and atom in (B, C, P, S) and not self.not_special_connectivity[n]', mode='eval').body))
+    from .astutil import if_chain as _chain
+    tests = [t for top in ast.walk(f.node) if isinstance(top, ast.If) for t, _ in _chain(top) if t is not None]
+    hit = [t for t in tests if _simplify(_dnf(t)) == want]
+    # for the message: the arm that speaks about hydrogen-free B / C / P / S atoms
+    cand = hit or [t for t in tests if 'implicit_hydrogens' in src(t) and any(isinstance(x, ast.Tuple) and {src(e) for e in x.elts} == {'B', 'C', 'P', 'S'} for x in ast.walk(t))]
+    ck.decide(bool(hit), R, 'elemental-arm', src(cand[0]) if cand else None,
+              f'_format_atom: the "elemental B, C, P, S" arm is `{src(cand[0]) if cand else "missing"}`; it must test the ordinary-bond view not_special_connectivity[n] '
+              f'(an atom whose only bonds are order-8 "~" bonds gets hydrogens from the reader unless it is bracketed)', file=f.file, line=(cand[0].lineno if cand else f.lineno), func=f.qualname)
+
+
+def rule_uncapped_sentinel(ck, repo, R):
+    """C17: number_bit_pairs == 0 means "no cap on repeated fragments"; the value substituted for 0 must exceed any possible count (a constant >= 10**6) and be the same
+    in every function of the module that implements the option"""
+    ck.rule(R, 'linear fingerprints: wherever `not number_bit_pairs` is replaced by a cap, the cap is one and the same integer constant >= 1_000_000 in all sibling functions')
+    m = repo.module('chython.algorithms.fingerprints.linear')
+    vals = []
+    for fn in ast.walk(m.tree):
+        if isinstance(fn, ast.FunctionDef):
+            for i in ast.walk(fn):
+                if isinstance(i, ast.If) and src(i.test) in ('not number_bit_pairs', 'number_bit_pairs == 0'):
+                    for a in i.body:
+                        if isinstance(a, ast.Assign) and src(a.targets[0]) == 'number_bit_pairs':
+                            vals.append((fn.name, a.value, a.lineno))
+    ck.require(len(vals) >= 2, f'linear.py: {len(vals)} "no cap" substitutions found, 2 confirmed by hand')
+    consts = {v.value for _, v, _ in vals if isinstance(v, ast.Constant) and isinstance(v.value, int)}
+    for name, v, line in vals:
+        ok = isinstance(v, ast.Constant) and isinstance(v.value, int) and v.value >= 10 ** 6 and len(consts) == 1
+        ck.decide(ok, R, f'{name}:cap', src(v), f'{name}: number_bit_pairs=0 ("count every repeat") is replaced by `{src(v)}`; a fragment class can occur more often than any '
+                                               f'structure-derived bound (paths, not atoms), and the sibling functions use {sorted(consts)}', file=m.relpath, line=line, func=name)
